@@ -47,6 +47,26 @@ def std_leaves(c: ast.Call, ev):
         if not isinstance(n, int) or n <= 0 or not (fill is None or isinstance(fill, int)):
             return oe.NOT_MODELLED
         return data + bytes([fill or 0]) * (-len(data) % n)
+    if f.endswith("align_block_fill_random") and 1 <= len(c.args) <= 2 and not c.keywords:
+        # random padding is a leaf: any fixed filler shows where the padding goes (the reader must not depend on its value)
+        data = bytes(ev.ev(c.args[0]))
+        n = ev.ev(c.args[1]) if len(c.args) == 2 else 16
+        return data + b"\xA5" * (-len(data) % n) if isinstance(n, int) and n > 0 else oe.NOT_MODELLED
+    if f in ("align", "misc.align") and 1 <= len(c.args) <= 2 and not c.keywords:
+        v = ev.ev(c.args[0])
+        n = ev.ev(c.args[1]) if len(c.args) == 2 else 4
+        if isinstance(v, int) and isinstance(n, int) and n > 0:
+            return -(-v // n) * n
+    if f == "from_crc_algorithm" and len(c.args) == 1:
+        return oe.Obj(_crc=norm(c.args[0]))
+    if isinstance(c.func, ast.Attribute) and c.func.attr == "calculate" and len(c.args) == 1 and not c.keywords:
+        try:
+            o = ev.ev(c.func.value)
+        except oe.Unsupported:
+            o = None
+        if isinstance(o, oe.Obj) and "_crc" in o.__dict__:
+            import zlib
+            return zlib.crc32(o.__dict__["_crc"].encode() + b"|" + bytes(ev.ev(c.args[0])))  # stand-in: (algorithm, covered bytes) -> value
     if f == "extend_block" and 2 <= len(c.args) + len(c.keywords) <= 3 and all(k.arg in ("data", "length", "padding") for k in c.keywords):
         data = bytes(ev.ev(A.arg_of(c, 0, "data")))
         n = ev.ev(A.arg_of(c, 1, "length"))
